@@ -530,6 +530,7 @@ pub fn build_hand(name: &str, rng: &mut Rng) -> Built {
         "audec" => {
             // valid header as a table-free byte stream is built by the caller: here raw bytes after a header
             alphabets = vec![(256, vec![])];
+            params = vec![48000];
             rig1::<u8, f32>(rng, |r| bx!(AuDecode::new(r, 48000)))
         }
         "zerocross" => {
@@ -686,6 +687,10 @@ fn gen_inspecs(built: &Built, rng: &mut Rng, heavy_tags: bool) -> Vec<InSpec> {
             } else {
                 vec![]
             };
+            if built.name == "audec" && j == 0 {
+                let data = au_input(rng, in_cap);
+                return InSpec { pkts, len: data.len(), seed: 0, m: *m, tbl: tbl.clone(), tags: vec![], fixed: Some(data) };
+            }
             if built.name == "il2p" {
                 // valid IL2P transmissions (the library's own test vector) between stretches of random bits,
                 // with the "sync" tags CorrelateAccessCodeTag would put on the last bit of each sync word
@@ -696,6 +701,52 @@ fn gen_inspecs(built: &Built, rng: &mut Rng, heavy_tags: bool) -> Vec<InSpec> {
             InSpec { pkts, len, seed: rng.next() >> 8, m: *m, tbl: tbl.clone(), tags, fixed: None }
         })
         .collect()
+}
+
+/// `.au` byte streams for AuDecode(48000): mostly valid headers (any data offset >= 24, annotation bytes,
+/// any length field) followed by PCM bytes of even or odd length; a quarter with one field wrong or cut short.
+pub fn au_input(rng: &mut Rng, in_cap: usize) -> Vec<u64> {
+    let mut magic = 0x2e736e64u32;
+    let mut off = *rng.pick(&[24u32, 24, 28, 28, 32, 40, 100]);
+    let mut enc = 3u32;
+    let mut rate = 48000u32;
+    let mut chans = 1u32;
+    let mut cut = None;
+    if rng.chance(1, 4) {
+        match rng.below(7) {
+            0 => magic ^= 1 << rng.below(32),
+            1 => off = *rng.pick(&[0u32, 8, 16, 23]),
+            2 => enc = *rng.pick(&[0u32, 2, 4, 0x0300_0000]),
+            3 => rate = *rng.pick(&[44100u32, 0, 48001]),
+            4 => chans = *rng.pick(&[0u32, 2, 0x0100_0000]),
+            5 => cut = Some(rng.range(0, 30)),
+            _ => off = 24 + rng.range(0, 3) as u32,
+        }
+    }
+    let mut b: Vec<u8> = vec![];
+    b.extend(magic.to_be_bytes());
+    b.extend(off.to_be_bytes());
+    b.extend((rng.next() as u32).to_be_bytes());
+    b.extend(enc.to_be_bytes());
+    b.extend(rate.to_be_bytes());
+    b.extend(chans.to_be_bytes());
+    while b.len() < off as usize {
+        b.push(rng.below(256) as u8);
+    }
+    let body = match rng.below(5) {
+        0 => rng.range(0, 5),
+        1 => rng.range(0, 200),
+        2 => in_cap + rng.range(0, 40),
+        3 => rng.range(0, 3 * in_cap),
+        _ => rng.range(0, 700),
+    };
+    for _ in 0..body {
+        b.push(rng.below(256) as u8);
+    }
+    if let Some(c) = cut {
+        b.truncate(c);
+    }
+    b.iter().map(|v| *v as u64).collect()
 }
 
 fn il2p_input(rng: &mut Rng) -> Option<(Vec<u64>, Vec<(usize, u64, u64)>)> {
@@ -973,6 +1024,11 @@ pub fn case(name: &str, rng: &mut Rng, steps: usize, heavy_tags: bool) -> String
                 _ => rng.range(0, 700),
             };
             let tags = if built.name == "s2pdu" { gen_burst_tags(rng, len) } else { gen_tags(rng, len, heavy_tags) };
+            if built.name == "audec" {
+                let data = au_input(rng, in_cap);
+                let tags = gen_tags(rng, data.len(), heavy_tags);
+                return InSpec { pkts: vec![], len: data.len(), seed: 0, m: *m, tbl: tbl.clone(), tags, fixed: Some(data) };
+            }
             InSpec { pkts: vec![], len, seed: rng.next() >> 8, m: *m, tbl: tbl.clone(), tags, fixed: None }
         })
         .collect();
@@ -992,7 +1048,7 @@ pub fn run(args: &[String]) -> Vec<String> {
     let only_block = arg(args, "--block");
     let mut out = Vec::new();
     let names: Vec<&str> = match set.as_str() {
-        "modelled" => SYNC_NAMES.iter().chain(ARITY_NAMES.iter()).chain(["skip", "delay", "resampler", "rtlsdr", "s2pdu", "totext"].iter()).copied().collect(),
+        "modelled" => SYNC_NAMES.iter().chain(ARITY_NAMES.iter()).chain(["skip", "delay", "resampler", "rtlsdr", "s2pdu", "totext", "audec"].iter()).copied().collect(),
         "sync" => SYNC_NAMES.to_vec(),
         "arity" => ARITY_NAMES.to_vec(),
         "hand" => HAND_NAMES.to_vec(),
